@@ -12,23 +12,23 @@ CHECKS = {
          "Trusts harness/refint as the statement of the reference semantics (docs/lang.md + docstrings; pinned behaviour where they are silent); error messages and map-key spelling are not compared; programs the model declines (fuel, constructs outside its scope) are not judged.",
          "DESIGN.md 4/C01"),
  "C02": ("exploration", "twin execution (elimination on / off / profiler) + stack-height time series from a host builtin + hook assertion at every tail elision",
-         "Tail loops over every chain of <=2 tail-position wrappers x 5 call forms x 3 recursion kinds x 3 definers (longer chains sampled) are run for several iteration counts while a host builtin samples the physical stack each turn (must not grow) and a source hook inspects every elided frame (terminal, never TROBlock); loops through handler-bind / ignore-errors / load-string must keep their frames; generated programs are compared across elimination on, off (dormant debugger) and profiler.",
+         "Tail loops over every chain of <=2 tail-position wrappers x 9 call forms (direct, thread-first/last, funcall, funcall #'f, apply with and without leading arguments, unpack, head call) x 3 recursion kinds x 3 definers (longer chains sampled) are run for several iteration counts while a host builtin samples the physical stack each turn (must not grow) and a source hook inspects every elided frame (terminal, never TROBlock); loops through handler-bind / ignore-errors / load-string must keep their frames; generated programs are compared across elimination on, off (dormant debugger) and profiler.",
          "Trusts the dormant-debugger configuration as 'elimination off'; twin pairs whose elimination-off run hits a stack/step limit are not judged; tail positions reached through builtins outside the listed wrappers are not covered.",
          "DESIGN.md 4/C02"),
  "C03": ("exploration", "hostile-input survival monitor in child worker processes (culprit = last case logged before a fatal throw); oracle lisp.IsInternalPanic, recover around every entry point, per-case watchdog",
-         "Three workloads: hostile sources (random bytes, token soup, mutations of repository .lisp files and generated programs, 26 structured stressors: 10^6-deep brackets and quote chains, recursive macros, runaway recursion, self-containing data into printing/equal?/json/format-string/elpspath, cyclic macro expansions, huge indexes) loaded under MaxSteps, default stack limits, MaxAlloc and a context deadline; a sweep over every function, operator and macro found in the registry at run time x arities 0..max+2 x argument tuples from a pool of ~75 values of every type in fresh runtimes; and the byte corpus through the strict, fault-tolerant and format-preserving readers and the lexer without limits.",
-         "Memory is not bounded by elps: inputs <= 2 MiB, MaxAlloc 1M; the 120 s per-case watchdog is wall clock (cases take milliseconds; a firing ends the worker and is reported with the culprit).",
+         "Three workloads: hostile sources (random bytes, token soup, mutations of repository .lisp files and generated programs, 30 structured stressors incl. a cycle matrix (cycles through maps, vectors, lists and user-typed objects x every consumer that walks a value): 10^6-deep brackets and quote chains, recursive macros, runaway recursion, self-containing data into printing/equal?/json/format-string/elpspath, cyclic macro expansions, huge indexes) loaded under MaxSteps, default stack limits, MaxAlloc and a context deadline; a sweep over every function, operator and macro found in the registry at run time x arities 0..max+2 x argument tuples from a pool of ~85 values of every type in fresh runtimes (sampled, and on every other visit enumerated: arity 1 the whole pool, arity 2-3 the cross product of ~30 boundary values in two positions); and the byte corpus through the strict, fault-tolerant and format-preserving readers and the lexer without limits.",
+         "Memory is not bounded by elps: inputs <= 2 MiB, MaxAlloc 1M (200k in the sweep); the 120 s watchdog (per source case, per call in the sweep) is wall clock: a firing ends the worker, the driver re-runs that case alone with a 600 s watchdog and reports it only if it fires again; the rest of the shard continues in a new process.",
          "DESIGN.md 4/C03"),
  "C04": ("fault_enumeration", "twin execution (budget n vs unlimited, cancellation at step k vs unlimited) over every n/k of small programs + hook assertions at every step, push and eval entry",
-         "For probe-instrumented programs the unlimited run under a counting context gives N and a step-stamped effect trace; every budget n in 1..N+2 (every n for N<=400) and every cancellation index k must reproduce exactly that trace cut at n (k-1), end with step-limit-exceeded / context-cancelled unless a swallowing form intercepts, and leave outcomes identical for n>=N; budgets refill per top-level evaluation; physical height, eval nesting, tail-iteration and macro-expansion limits are enumerated 3..40 around the recursion depth with hook assertions that the stack never exceeds the maximum and evaluation never proceeds above the nesting maximum, the error is catchable and the runtime usable afterwards; empty dotimes and a pending time:sleep stop on cancellation.",
-         "Step stamps come from Runtime.Steps() read inside a host probe builtin; with a swallowing form only events within the budget are compared; tail/macro bounds are judged with one unit of slack; the sleep assertion uses a 20 s wall-clock margin on a 40 s sleep.",
+         "For probe-instrumented programs the unlimited run under a counting context gives N and a step-stamped effect trace; every budget n in 1..N+2 (every n for N<=400) and every cancellation index k must reproduce exactly that trace cut at n (k-1), end with step-limit-exceeded / context-cancelled unless a swallowing form intercepts, and leave outcomes identical for n>=N; budgets refill per top-level evaluation; physical height, eval nesting, tail-iteration and macro-expansion limits are enumerated 3..40 around the recursion depth with hook assertions that the stack never exceeds the maximum and evaluation never proceeds above the nesting maximum, the error is catchable and the runtime usable afterwards; empty dotimes, loads called from non-root environments and a pending time:sleep (contexts with and without a distant deadline, cancelled explicitly or through the parent) stop on cancellation; tail loops repeated at one stack depth are each bounded separately.",
+         "Step stamps come from Runtime.Steps() read inside a host probe builtin; with a swallowing form only events within the budget are compared; tail/macro bounds are judged with one unit of slack; the sleep assertions use wall-clock margins of 15-20 s on 30-40 s sleeps cancelled after 30 ms.",
          "DESIGN.md 4/C04"),
  "C05": ("fault_enumeration", "invariant monitor at quiescence (after every entry point returns) + twin-runtime replay of completed effects, under injected faults",
-         "Histories of 12-40 top-level evaluations in one runtime through all 15 entry points with 18 fault kinds (errors, every limit, step budget exhausted / context cancelled at an enumerated step index, host panics in five positions, errors in handlers, in-package then failure in a nested load); after every return the stack, pending conditions, evaluator nesting, entry depth, current package and raw evaluation context (hook accessors) are asserted, and a probe program must equal a twin runtime that replays a prefix of the step's effects consistent with the completion probes.",
+         "Histories of 12-40 top-level evaluations in one runtime through all 15 entry points with 28 fault kinds (errors, every limit, step budget exhausted / context cancelled at an enumerated step index, host panics in six positions incl. a panicking host function passed directly as a callback, errors in handlers, handler clauses whose handler expression fails or is not a function, failures inside binding forms and callbacks, cross-package functions failing mid-body, in-package then failure in a nested load, empty sources); after every return the stack, pending conditions, evaluator nesting, entry depth, current package and raw evaluation context (hook accessors) are asserted, and a probe program must equal a twin runtime that replays a prefix of the step's effects consistent with the completion probes.",
          "Effects are atomic statements wrapped in a completion probe; the twin is driven fault-free through LoadString; unexported state is read through build-tag accessors in lisp/verif_on.go.",
          "DESIGN.md 4/C05"),
  "C06": ("exploration", "reference-model runtime monitor over generated handler nestings + host-side observation (probe builtins that panic on demand and capture the condition being handled)",
-         "Trees (depth <= 6) of handler-bind (1-4 bindings, any order, duplicates, `condition`, `internal-panic`), ignore-errors, progn, calls; raise sites error / host-raised error / type error / lisp-forged internal-panic / host panic / rethrow, in bodies, handler expressions, handler bodies and helpers called from handlers; value, condition, error data, IsInternalPanic marker and the ordered effect trace are compared with the reference interpreter, and the pointer-identity pattern between the errors handlers saw (verif:capture) and the error finally returned must match the model's (rethrow re-raises the very error).",
+         "Trees (depth <= 6) of handler-bind (1-4 bindings, any order, duplicates, `condition`, `internal-panic`), ignore-errors, progn, calls; raise sites error / host-raised error / type error / lisp-forged internal-panic / host panic / rethrow, in bodies, handler expressions, handler bodies and helpers called from handlers, also behind a nested load-string, a callback of map/foldl/funcall/apply or a binding form; value, condition, error data, IsInternalPanic marker and the ordered effect trace are compared with the reference interpreter, and the pointer-identity pattern between the errors handlers saw (verif:capture) and the error finally returned must match the model's (rethrow re-raises the very error).",
          "Error data is restricted to self-evaluating values; messages of evaluator-raised errors are opaque; handler-bind without body forms is not generated (unspecified).",
          "DESIGN.md 4/C06"),
  "C07": ("exploration", "twin execution (macro call vs eval of its macroexpansion; macroexpand-1 fixpoint vs macroexpand) + reference-model monitor (macro programs, quasiquote templates with quote marks) + distinctness monitor over gensym runs",
@@ -40,15 +40,15 @@ CHECKS = {
          "The language package itself is never entered or modified by the workload (unspecified); trusts harness/refint's package model.",
          "DESIGN.md 4/C08"),
  "C09": ("exploration", "structural-snapshot invariant monitor + twin execution (shared Program vs fresh parse) + Go race detector over concurrent private runtimes + the repository's checked build (-tags elpscheck) as second sanitizer",
-         "26 in-place/capacity-sensitive mutator forms x 5 literals x 4 routing shapes (function returning a literal, literal in a loop body, macro arguments and &rest lists, cdr/slice views held in a global) plus generated programs; each Program is parsed once, snapshotted node by node (pointer, type, scalar fields, quoting, seal, source, len/cap, child pointers) and fingerprinted, then loaded 2-5 times in one runtime against a re-parsing twin, in fresh differently-configured runtimes, and concurrently by 2/8/32 goroutines under GOMAXPROCS 2/16 in the -race build; results must equal the fresh-parse reference, snapshot and fingerprint must be unchanged, a bystander runtime's packages must not change, no race report; a sequential sub-list is repeated under -tags elpscheck.",
+         "42 in-place/capacity-sensitive mutator forms (on the literal, on views of it, on values derived from it by forms that must hand out fresh storage) x 8 literal forms x 4 routing shapes (function returning a literal, literal in a loop body, macro arguments and &rest lists, cdr/slice views held in a global) plus generated programs; each Program is parsed once, snapshotted node by node (pointer, type, scalar fields, quoting, seal, source, len/cap, child pointers) and fingerprinted, then loaded 2-5 times in one runtime against a re-parsing twin, in fresh differently-configured runtimes, and concurrently by 2/8/32 goroutines under GOMAXPROCS 2/16 in the -race build; results must equal the fresh-parse reference, snapshot and fingerprint must be unchanged, a bystander runtime's packages must not change, no race report; a sequential sub-list is repeated under -tags elpscheck.",
          "The race detector only sees accesses the workload performs; same-value writes are invisible to the snapshot.",
          "DESIGN.md 4/C09"),
  "C10": ("exploration", "twin execution: byte-exact transcripts across fresh runtimes, concurrent runtimes after unrelated prior activity (Go race detector build) and separate processes with different GOMAXPROCS/GOGC/prior activity",
-         "Each program (33 templates printing/enumerating/serialising maps, closures, errors, schema/json/gensym/time output, plus generated core programs) is run once, then in 4 concurrently running fresh runtimes after unrelated activity in the same process, under the race detector; a fixed sub-list is re-run in 4 separate processes (GOMAXPROCS 1/3/8/16, GOGC 20/100/400/off, 0-19 rounds of prior activity); value rendering, Stderr, error message and rendering with location, step count and probe trace must be byte-identical; any race report is a violation.",
+         "Each program (44 templates printing/enumerating/serialising maps, closures, errors, schema/json/gensym/time output, plus generated core programs) is run once, then in 4 concurrently running fresh runtimes after unrelated activity in the same process, under the race detector; a fixed sub-list is re-run in 4 separate processes (GOMAXPROCS 1/3/8/16, GOGC 20/100/400/off, 0-19 rounds of prior activity); value rendering, Stderr, error message and rendering with location, step count and probe trace must be byte-identical; any race report is a violation.",
          "time:utc-now / time-elapsed / sleep and file loading are excluded by construction; map-order leaks are probabilistic per comparison (>=8 keys, 8 comparisons per program).",
          "DESIGN.md 4/C10"),
  "C11": ("exploration", "history + heap-model runtime monitor: every live value re-inspected (structural snapshot) after every container operation",
-         "Histories of 12-70 operations over a heap of named globals in one real runtime: constructors, views (slice/cdr/rest, views of views), every listed non-mutating operation, the five mutators, zero-length appends, appends to views and to append results, containers stored in containers, quoted literals; after each step every live value is compared with a heap model (backing, offset, length) that encodes the documented discipline.",
+         "Histories of 12-70 operations over a heap of named globals in one real runtime: constructors, views (slice/cdr/rest, views of views), every listed non-mutating operation, the five mutators, zero-length appends, appends to views and to append results, containers stored in containers (also as elements by insert-index / insert-sorted / cons / append), whole-range views, quoted literals; after each step every live value is compared with a heap model (backing, offset, length) that encodes the documented discipline.",
          "Whether append! moves a vector that has outstanding views is unspecified (capacity is an implementation detail): values whose sharing would depend on it are skipped, not judged; key spelling of maps is compared by name.",
          "DESIGN.md 4/C11"),
  "C12": ("exploration", "metamorphic runtime monitor: print/read round trip of generated values, three-reader agreement on generated and mutated source texts, and layout re-writing between complete tokens, judged by harness-side structural comparison",
